@@ -21,6 +21,7 @@ type nodeCfg struct {
 	Validators string `json:"validators"` // employeeid | employeeid+dummy
 	Irma       string `json:"irma"`       // pbdf | irma-demo
 	Methods    string `json:"methods"`    // web,nuts | web | nuts
+	Contexts   string `json:"contexts"`   // default | extra (one more remote context on jsonld.contexts.remoteallowlist)
 }
 
 // reservedTLDs / reservedL2: RFC 2606 plus draft-chapin-rfc2606bis-00 (the two documents core/url.go cites).
@@ -63,6 +64,43 @@ func urlClass(raw string) string {
 	return "secure"
 }
 
+// urlSubclass refines the class for violation signatures (different sub-classes are different defects).
+func urlSubclass(raw string) string {
+	if raw == "" {
+		return "empty"
+	}
+	u, err := url.Parse(raw)
+	if err != nil {
+		return "unparsable"
+	}
+	switch urlClass(raw) {
+	case "not-https":
+		if u.Scheme == "" {
+			return "no-scheme"
+		}
+		if u.Hostname() == "" {
+			return "no-host"
+		}
+		return strings.ToLower(u.Scheme)
+	case "ip":
+		h := u.Hostname()
+		switch {
+		case strings.Contains(h, "%"):
+			return "v6zone"
+		case strings.Contains(h, ":"):
+			return "v6"
+		}
+		return "v4"
+	case "reserved":
+		parts := strings.Split(strings.ToLower(strings.TrimSuffix(u.Hostname(), ".")), ".")
+		if reservedTLDs[parts[len(parts)-1]] {
+			return parts[len(parts)-1]
+		}
+		return strings.Join(parts[len(parts)-2:], ".")
+	}
+	return ""
+}
+
 func (c nodeCfg) hasMethod(m string) bool {
 	for _, x := range strings.Split(c.Methods, ",") {
 		if x == m {
@@ -76,13 +114,8 @@ func (c nodeCfg) hasMethod(m string) bool {
 // (dummy means, outbound HTTP and JSON-LD contexts are judged at the action, see DESIGN "### C20".)
 func (c nodeCfg) insecureStart() []string {
 	var out []string
-	switch urlClass(c.URL) {
-	case "not-https":
-		out = append(out, "url-not-https")
-	case "ip":
-		out = append(out, "url-ip")
-	case "reserved":
-		out = append(out, "url-reserved")
+	if cl := urlClass(c.URL); cl != "secure" && cl != "unparsable" {
+		out = append(out, "url-"+cl+":"+urlSubclass(c.URL))
 	}
 	// "network TLS switched off": there is a network only when did:nuts is enabled.
 	if c.TLS == "disabled" && c.hasMethod("nuts") {
